@@ -2,11 +2,16 @@
 //! only a single push (or pop) may execute the critical region at a time
 
 use super::super::ogre_stacks::OgreStack;
+#[cfg(not(feature = "verif"))]
 use std::{
     fmt::Debug,
     sync::atomic::{AtomicU64,AtomicBool,Ordering},
     mem::MaybeUninit,
 };
+#[cfg(feature = "verif")]
+use std::{fmt::Debug, sync::atomic::Ordering, mem::MaybeUninit};
+#[cfg(feature = "verif")]
+use crate::verif::{AtomicU64, AtomicBool};
 
 
 #[repr(C,align(64))]      // aligned to cache line sizes to avoid false-sharing performance degradation
